@@ -349,6 +349,20 @@ class PartialJoin(UnaryOperation):
         from ._deduplication import Deduplication
         from ._projection import Projection
 
+        if self.binary.max_columns == self.binary.min_columns:
+            # Columns the new target shares with the fixed relation beyond the
+            # equality constraint would be replaced by the fixed relation's
+            # (or vice versa) before the operations in between get to see them.
+            clobbered = (current.target.columns & self.fixed.columns) - self.binary.common_columns
+            if clobbered:
+                return UnaryCommutator(
+                    first=None,
+                    second=current.operation,
+                    done=False,
+                    messages=(
+                        f"columns {set(clobbered)} of {current.target} are also provided by {self.fixed}",
+                    ),
+                )
         match current.operation:
             case Deduplication():
                 # A Join only commutes past Deduplication if the fixed relation
